@@ -150,6 +150,27 @@ def lib_outputs(out, iid, rep, path):
             s = tertiary_v2.Structure(df)
             return "\n".join(" ".join(str(r) for r in seg) for seg in s.connected_residues)
 
+        # derived tables that do not fit the PDB format as they are (long chain names, five-digit residue numbers):
+        # the renaming / renumbering paths of fit_to_pdb, which no corpus file needs
+        chain_col, num_col = ("chainID", "resSeq") if is_pdb else ("auth_asym_id", "auth_seq_id")
+
+        def long_chains():
+            d = df.copy()
+            d.attrs = dict(df.attrs)
+            d[chain_col] = d[chain_col].astype(str).map(lambda c: "CH" + c + "x")
+            fitted = parser_v2.fit_to_pdb(d)
+            return parser_v2.write_pdb(fitted) + "\n#####\n" + parser_v2.write_cif(d)
+
+        def big_numbers():
+            d = df.copy()
+            d.attrs = dict(df.attrs)
+            d[num_col] = d[num_col].astype(int) + 20000
+            fitted = parser_v2.fit_to_pdb(d)
+            return parser_v2.write_pdb(fitted) + "\n#####\n" + parser_v2.write_cif(d)
+
+        if chain_col in df.columns and num_col in df.columns:
+            emit(out, iid, "v2_fit_long_chain_names", rep, _outcome(long_chains), nt)
+            emit(out, iid, "v2_fit_big_residue_numbers", rep, _outcome(big_numbers), nt)
         emit(out, iid, "v2_torsion_angles_csv", rep, _outcome(torsions), nt)
         emit(out, iid, "v2_connected_residues", rep, _outcome(connected), nt)
     if not is_pdb:
